@@ -6,6 +6,7 @@ package meta
 // See docs/OPTIMIZATIONS.md for algorithm details and benchmark data.
 
 import (
+	"bytes"
 	"errors"
 	"regexp/syntax"
 	"sync"
@@ -111,6 +112,15 @@ func endsWithUniversalMatch(re *syntax.Regexp) bool {
 	return false
 }
 
+// endsWithDotNL reports whether the trailing `.*`/`.+` found by endsWithUniversalMatch
+// was written with (?s), i.e. whether its dot also matches \n.
+func endsWithDotNL(re *syntax.Regexp) bool {
+	for re != nil && (re.Op == syntax.OpConcat || re.Op == syntax.OpCapture) && len(re.Sub) > 0 {
+		re = re.Sub[len(re.Sub)-1]
+	}
+	return re != nil && len(re.Sub) == 1 && re.Sub[0].Op == syntax.OpAnyChar
+}
+
 // ErrNoInnerLiterals indicates that no inner literals could be extracted for ReverseInner strategy.
 // This is not a fatal error - it just means ReverseInner optimization cannot be used.
 var ErrNoInnerLiterals = errors.New("no inner literals available for ReverseInner strategy")
@@ -154,6 +164,8 @@ type ReverseInnerSearcher struct {
 	universalPrefix bool // True if prefix is .* (matches everything from start)
 	universalSuffix bool // True if suffix ends with .* (matches everything to end)
 	startAnchored   bool // True if prefix only contains start anchors (^, ^+, etc.)
+	emptyPrefix     bool // True if prefix can match the empty string (.* yes, .+ no)
+	dotNL           bool // True if the universal prefix AND suffix use (?s) dot (matches \n)
 	fwdCachePool    sync.Pool
 	revCachePool    sync.Pool
 }
@@ -162,7 +174,7 @@ type ReverseInnerSearcher struct {
 //
 // The key optimization (from rust-regex):
 //   - Build reverse NFA from PREFIX AST only (not full pattern)
-//   - Build forward NFA from SUFFIX AST only (not full pattern)
+//   - Run the forward DFA of the full pattern, anchored at the start found
 //   - This enables true bidirectional search with 10-100x speedup
 //
 // Requirements:
@@ -233,24 +245,12 @@ func NewReverseInnerSearcher(
 		return nil, err
 	}
 
-	// Build forward NFA from SUFFIX AST (includes inner + everything after)
-	var suffixNFA *nfa.NFA
-	if innerInfo.SuffixAST != nil {
-		compiler := nfa.NewCompiler(nfa.CompilerConfig{
-			UTF8:     true,
-			Anchored: false,
-		})
-		suffixNFA, err = compiler.CompileRegexp(innerInfo.SuffixAST)
-		if err != nil {
-			return nil, err
-		}
-	} else {
-		// Fallback to full pattern if no suffix AST
-		suffixNFA = fullNFA
-	}
-
-	// Build forward DFA from suffix NFA
-	forwardDFA, err := lazy.CompileWithConfig(suffixNFA, config)
+	// Build forward DFA from the FULL pattern. Once the reverse prefix DFA has found a
+	// candidate match start, the match end is found by running the whole regex anchored
+	// at that start (as rust-regex does). A DFA for the suffix alone, started at the
+	// literal, gives wrong spans: it is unanchored (it can latch onto a later literal)
+	// and it ignores that a greedy prefix may extend over later literal occurrences.
+	forwardDFA, err := lazy.CompileWithConfig(fullNFA, config)
 	if err != nil {
 		return nil, err
 	}
@@ -268,7 +268,7 @@ func NewReverseInnerSearcher(
 	startAnchored := isStartAnchorOnly(innerInfo.PrefixAST)
 
 	s := &ReverseInnerSearcher{
-		forwardNFA:      suffixNFA,
+		forwardNFA:      fullNFA,
 		reverseNFA:      reverseNFA,
 		reverseDFA:      reverseDFA,
 		forwardDFA:      forwardDFA,
@@ -278,6 +278,8 @@ func NewReverseInnerSearcher(
 		universalPrefix: universalPrefix,
 		universalSuffix: universalSuffix,
 		startAnchored:   startAnchored,
+		emptyPrefix:     nfa.NewPikeVM(prefixNFA).IsMatch(nil),
+		dotNL:           endsWithDotNL(innerInfo.PrefixAST) && endsWithDotNL(innerInfo.SuffixAST),
 	}
 	s.fwdCachePool = sync.Pool{
 		New: func() any { return s.forwardDFA.NewCache() },
@@ -286,6 +288,19 @@ func NewReverseInnerSearcher(
 		New: func() any { return s.reverseDFA.NewCache() },
 	}
 	return s, nil
+}
+
+// prefixStart returns the leftmost start (>= at) of a prefix match ending at pos, like
+// SearchReverseLimited. It also covers the empty region pos == at, which the reverse DFA
+// reports as "no match": there the prefix matches only if it can match the empty string.
+func (s *ReverseInnerSearcher) prefixStart(cache *lazy.DFACache, haystack []byte, at, pos, minStart int) int {
+	if pos == at {
+		if s.emptyPrefix {
+			return at
+		}
+		return -1
+	}
+	return s.reverseDFA.SearchReverseLimited(cache, haystack, at, pos, minStart)
 }
 
 // Find searches using inner literal prefilter + bidirectional DFA and returns the match.
@@ -332,7 +347,9 @@ func (s *ReverseInnerSearcher) Find(haystack []byte) *Match {
 	//   - Match end is ALWAYS len(haystack) (because .* matches any suffix to end)
 	// We can skip expensive DFA scans and just verify with fast IsMatch.
 	// This reduces Find from O(n) DFA scan to O(1) for common patterns!
-	if s.universalPrefix && s.universalSuffix {
+	// This only holds while `.` can reach both ends: without (?s) a newline in the
+	// haystack confines the match to one line, so use the general search then.
+	if s.universalPrefix && s.universalSuffix && (s.dotNL || bytes.IndexByte(haystack, '\n') < 0) {
 		if s.IsMatch(haystack) {
 			return NewMatch(0, len(haystack), haystack)
 		}
@@ -379,7 +396,7 @@ func (s *ReverseInnerSearcher) Find(haystack []byte) *Match {
 		// Step 1: Reverse search on PREFIX portion with anti-quadratic guard
 		// Check if we can reach this inner literal from an earlier position.
 		// Use minMatchStart to avoid re-scanning regions already proven to have no match.
-		matchStart := s.reverseDFA.SearchReverseLimited(revCache, haystack, 0, pos, minMatchStart)
+		matchStart := s.prefixStart(revCache, haystack, 0, pos, minMatchStart)
 		if matchStart == lazy.SearchReverseLimitedQuadratic {
 			// Reverse scan hit the anti-quadratic guard - fall back to PikeVM
 			start, end, found := s.pikevm.Search(haystack)
@@ -397,11 +414,10 @@ func (s *ReverseInnerSearcher) Find(haystack []byte) *Match {
 			continue
 		}
 
-		// Step 2: Forward search on SUFFIX portion
+		// Step 2: Forward search of the full pattern, anchored at the match start
 		// Find the end of the match (forward DFA finds longest match = greedy)
-		suffixHaystack := haystack[pos:]
-		matchEndRel := s.forwardDFA.Find(fwdCache, suffixHaystack)
-		if matchEndRel < 0 {
+		matchEnd := s.forwardDFA.SearchAtAnchored(fwdCache, haystack, matchStart)
+		if matchEnd < 0 {
 			// Suffix doesn't match - update minPreStart and try next candidate
 			minPreStart = pos + s.innerLen
 			searchStart = pos + 1
@@ -413,7 +429,6 @@ func (s *ReverseInnerSearcher) Find(haystack []byte) *Match {
 
 		// EARLY RETURN: First confirmed match is leftmost by construction!
 		// Forward DFA already finds the longest match from this start position.
-		matchEnd := pos + matchEndRel
 		return NewMatch(matchStart, matchEnd, haystack)
 	}
 
@@ -465,31 +480,19 @@ func (s *ReverseInnerSearcher) IsMatch(haystack []byte) bool {
 		// BIDIRECTIONAL VERIFICATION:
 		//
 		// Step 1: Check if prefix matches (reverse DFA with anti-quadratic guard)
-		// Special cases for pos=0:
-		//   - universalPrefix (.*): trivially matches empty prefix
-		//   - startAnchored (^, ^+): trivially matches at position 0
-		prefixMatches := false
-		if pos == 0 && (s.universalPrefix || s.startAnchored) {
-			// Universal prefix (.*) or start anchor (^) matches at position 0
-			prefixMatches = true
-		} else if pos > 0 {
-			// Use SearchReverseLimited for anti-quadratic protection
-			revResult := s.reverseDFA.SearchReverseLimited(revCache, haystack, 0, pos, minStart)
-			if revResult == lazy.SearchReverseLimitedQuadratic {
-				// Quadratic behavior detected - fall back to PikeVM
-				_, _, matched := s.pikevm.Search(haystack)
-				return matched
-			}
-			prefixMatches = revResult >= 0
+		// Special case pos=0 (handled by prefixStart): only a prefix that can match
+		// empty (.*, ^) matches there; .+ or [a-z]+ need input before the literal.
+		matchStart := s.prefixStart(revCache, haystack, 0, pos, minStart)
+		if matchStart == lazy.SearchReverseLimitedQuadratic {
+			// Quadratic behavior detected - fall back to PikeVM
+			_, _, matched := s.pikevm.Search(haystack)
+			return matched
 		}
 
-		if prefixMatches {
-			// Step 2: Check if suffix matches (forward DFA from inner position)
-			suffixHaystack := haystack[pos:]
-			if s.forwardDFA.IsMatch(fwdCache, suffixHaystack) {
-				// Both prefix and suffix match - pattern matches!
-				return true
-			}
+		// Step 2: Check that the full pattern matches from the start found (forward DFA)
+		if matchStart >= 0 && s.forwardDFA.IsMatchAtAnchored(fwdCache, haystack, matchStart) {
+			// Both prefix and suffix match - pattern matches!
+			return true
 		}
 
 		// Update anti-quadratic guard: don't re-scan before this position
@@ -534,11 +537,10 @@ func (s *ReverseInnerSearcher) findIndicesAtImpl(haystack []byte, at int, fwdCac
 
 	// UNIVERSAL MATCH OPTIMIZATION:
 	// For patterns like `.*connection.*` where both prefix and suffix are universal (.*)
-	if s.universalPrefix && s.universalSuffix {
-		// Just check if there's an inner literal anywhere from 'at'
-		pos := s.prefilter.Find(haystack, at)
-		if pos >= 0 {
-			// For universal prefix/suffix, match spans from 'at' to end
+	// (no newline in the rest of the haystack unless `.` matches it - see Find)
+	if s.universalPrefix && s.universalSuffix && (s.dotNL || bytes.IndexByte(haystack[at:], '\n') < 0) {
+		// If the pattern matches at all, the match spans from 'at' to end
+		if s.IsMatch(haystack[at:]) {
 			return at, len(haystack), true
 		}
 		return -1, -1, false
@@ -556,7 +558,7 @@ func (s *ReverseInnerSearcher) findIndicesAtImpl(haystack []byte, at int, fwdCac
 
 		// Step 1: Reverse search on PREFIX portion with anti-quadratic guard
 		// Use minMatchStart to avoid re-scanning regions already checked
-		matchStart := s.reverseDFA.SearchReverseLimited(revCache, haystack, at, pos, minMatchStart)
+		matchStart := s.prefixStart(revCache, haystack, at, pos, minMatchStart)
 		if matchStart == lazy.SearchReverseLimitedQuadratic {
 			// Quadratic behavior detected - fall back to PikeVM
 			return s.pikevm.SearchAt(haystack, at)
@@ -570,10 +572,9 @@ func (s *ReverseInnerSearcher) findIndicesAtImpl(haystack []byte, at int, fwdCac
 			continue
 		}
 
-		// Step 2: Forward search on SUFFIX portion
-		suffixHaystack := haystack[pos:]
-		matchEndRel := s.forwardDFA.Find(fwdCache, suffixHaystack)
-		if matchEndRel < 0 {
+		// Step 2: Forward search of the full pattern, anchored at the match start
+		matchEnd := s.forwardDFA.SearchAtAnchored(fwdCache, haystack, matchStart)
+		if matchEnd < 0 {
 			// Suffix doesn't match - try next candidate
 			searchStart = pos + 1
 			if searchStart >= len(haystack) {
@@ -583,7 +584,6 @@ func (s *ReverseInnerSearcher) findIndicesAtImpl(haystack []byte, at int, fwdCac
 		}
 
 		// Found valid match
-		matchEnd := pos + matchEndRel
 		return matchStart, matchEnd, true
 	}
 
